@@ -44,7 +44,7 @@ func source(name string, bits int) string {
 	if has(6) {
 		b.WriteString("import (\n\t\"" + modPath + "/dep1\"\n\t\"strings\"\n)\n\nvar _ = dep1.V\nvar _ = strings.ToLower\n\n")
 	}
-	b.WriteString("type T struct{ A int }\n\nfunc (T) Val() {}\nfunc (*T) Ptr() {}\n\nconst C = 1\n\nfunc F() int { return C }\n\nvar V = 2\n\n")
+	b.WriteString("type T struct{ A int }\n\nfunc (T) Val() {}\nfunc (*T) Ptr() {}\nfunc (T) Val2() {}\nfunc (*T) Ptr2() {}\nfunc (*T) Ptr3() {}\nfunc (T) Val3() {}\n\nconst C = 1\n\nfunc F() int { return C }\n\nvar V = 2\n\n")
 	if has(0) {
 		b.WriteString("func local() int {\n\ttype T struct{ L string }\n\ttype OnlyLocal int\n\tvar x OnlyLocal\n\treturn len(T{}.L) + int(x)\n}\n\n")
 	}
@@ -217,6 +217,21 @@ func checkUniverse(c *core.Ctx, corpus string, u *gengotypes.Universe, pkgPaths 
 			}
 			if fmt.Sprint(val) != fmt.Sprint(gotVal) {
 				c.Fail(cls, cs, "%s: MethodsOf(%s, false) = %v, value-receiver methods are %v", path, n, gotVal, val)
+			}
+			// every sequence of 3 calls over {true,false} returns the same answers (an accessor must not
+			// disturb the table it reads from)
+			for seq := 0; seq < 8; seq++ {
+				for k := 0; k < 3; k++ {
+					ptr := seq&(1<<k) != 0
+					got := methodNames(p.MethodsOf(named, ptr))
+					want := val
+					if ptr {
+						want = all
+					}
+					if fmt.Sprint(got) != fmt.Sprint(want) {
+						c.Fail(cls, cs, "%s: call %d of the sequence %03b (1 = with pointer receivers) MethodsOf(%s, %v) = %v, want %v", path, k+1, seq, n, ptr, got, want)
+					}
+				}
 			}
 			// identity, not only names
 			for _, m := range p.MethodsOf(named, true) {
